@@ -41,11 +41,8 @@ impl Backend {
         // against the current buffer state, not stale disk content.
         // Note: If an editor doesn't follow the LSP spec and requests hints before
         // sending didChange, hints might be shown/hidden incorrectly until the next sync.
-        let content = self
-            .fixture_db
-            .file_cache
-            .get(&file_path)
-            .map(|c| c.clone());
+        // (A document that was closed or evicted from the cache is read back from disk.)
+        let content = self.fixture_db.get_file_content(&file_path);
         let lines: Vec<&str> = content
             .as_ref()
             .map(|c| c.lines().collect())
